@@ -126,8 +126,8 @@ Ltac muladd32_step :=
     Hth2 : ?th2 = u32 (?th + u32 (b2z (?n0 <? ?tl))), H1 : ?n1 = u32 (?c1 + ?th2), H2 : ?n2 = u32 (?c2 + u32 (b2z (?n1 <? ?th2))) |- _ =>
     let p' := norm_prod p in
     let A := fresh "A" in let B := fresh "B" in let C := fresh "C" in let D := fresh "D" in let S := fresh "S" in
-    assert (A : 0 <= c0 < 2^32) by (first [assumption | lia]); assert (B : 0 <= c1 < 2^32) by (first [assumption | lia]); assert (C : 0 <= c2 < 2^31) by (first [assumption | lia]);
-    assert (D : 0 <= p' <= (2^32 - 1) * (2^32 - 1)) by (first [assumption | lia]);
+    assert (A : 0 <= c0 < 2^32) by (first [assumption | timeout 120 lia]); assert (B : 0 <= c1 < 2^32) by (first [assumption | timeout 120 lia]); assert (C : 0 <= c2 < 2^31) by (first [assumption | timeout 120 lia]);
+    assert (D : 0 <= p' <= (2^32 - 1) * (2^32 - 1)) by (first [assumption | timeout 120 lia]);
     pose proof (muladd32_eq c0 c1 c2 p' t th tl n0 th2 n1 n2 Ht Hth Htl H0 Hth2 H1 H2 A B C D) as S;
     clear A B C D Ht Hth Htl H0 Hth2 H1 H2; split4 S
   end.
@@ -138,8 +138,8 @@ Ltac muladd_fast32_step :=
     Hth2 : ?th2 = u32 (?th + u32 (b2z (?n0 <? ?tl))), H1 : ?n1 = u32 (?c1 + ?th2) |- _ =>
     let p' := norm_prod p in
     let A := fresh "A" in let B := fresh "B" in let C := fresh "C" in let D := fresh "D" in let S := fresh "S" in
-    assert (A : 0 <= c0 < 2^32) by (first [assumption | lia]); assert (B : 0 <= c1) by (first [assumption | lia]);
-    assert (C : 0 <= p' <= (2^32 - 1) * (2^32 - 1)) by (first [assumption | lia]); assert (D : c0 + c1 * 2^32 + p' < 2^64) by (first [assumption | lia]);
+    assert (A : 0 <= c0 < 2^32) by (first [assumption | timeout 120 lia]); assert (B : 0 <= c1) by (first [assumption | timeout 120 lia]);
+    assert (C : 0 <= p' <= (2^32 - 1) * (2^32 - 1)) by (first [assumption | timeout 120 lia]); assert (D : c0 + c1 * 2^32 + p' < 2^64) by (first [assumption | timeout 120 lia]);
     pose proof (muladd_fast32_eq c0 c1 p' t th tl n0 th2 n1 Ht Hth Htl H0 Hth2 H1 A B C D) as S;
     clear A B C D Ht Hth Htl H0 Hth2 H1; split3 S
   end.
@@ -151,8 +151,8 @@ Ltac muladd2_32_step :=
     Hth2c : ?th2c = u32 (?th2b + u32 (b2z (?n0 <? ?tl2))), Hc2b : ?c2b = u32 (?c2a + u32 (Z.land (b2z (?n0 <? ?tl2)) (b2z (?th2c =? 0)))),
     H1 : ?n1 = u32 (?c1 + ?th2c), H2 : ?n2 = u32 (?c2b + u32 (b2z (?n1 <? ?th2c))) |- _ =>
     let A := fresh "A" in let B := fresh "B" in let C := fresh "C" in let D := fresh "D" in let S := fresh "S" in
-    assert (A : 0 <= c0 < 2^32) by (first [assumption | lia]); assert (B : 0 <= c1 < 2^32) by (first [assumption | lia]); assert (C : 0 <= c2 < 2^30) by (first [assumption | lia]);
-    assert (D : 0 <= p <= (2^32 - 1) * (2^32 - 1)) by (first [assumption | lia]);
+    assert (A : 0 <= c0 < 2^32) by (first [assumption | timeout 120 lia]); assert (B : 0 <= c1 < 2^32) by (first [assumption | timeout 120 lia]); assert (C : 0 <= c2 < 2^30) by (first [assumption | timeout 120 lia]);
+    assert (D : 0 <= p <= (2^32 - 1) * (2^32 - 1)) by (first [assumption | timeout 120 lia]);
     pose proof (muladd2_32_eq c0 c1 c2 p t th tl th2 c2a tl2 th2b n0 th2c c2b n1 n2 Ht Hth Htl Hth2 Hc2a Htl2 Hth2b H0 Hth2c Hc2b H1 H2 A B C D) as S;
     clear A B C D Ht Hth Htl Hth2 Hc2a Htl2 Hth2b H0 Hth2c Hc2b H1 H2; split4 S
   end.
@@ -161,8 +161,8 @@ Ltac sumadd32_step :=
   lazymatch goal with
   | H0 : ?n0 = u32 (?c0 + ?a), Ho : ?over = u32 (b2z (?n0 <? ?a)), H1 : ?n1 = u32 (?c1 + ?over), H2 : ?n2 = u32 (?c2 + u32 (b2z (?n1 <? ?over))) |- _ =>
     let A := fresh "A" in let B := fresh "B" in let C := fresh "C" in let D := fresh "D" in let S := fresh "S" in
-    assert (A : 0 <= c0 < 2^32) by (first [assumption | lia]); assert (B : 0 <= c1 < 2^32) by (first [assumption | lia]); assert (C : 0 <= c2 < 2^31) by (first [assumption | lia]);
-    assert (D : 0 <= a < 2^32) by (first [assumption | lia]);
+    assert (A : 0 <= c0 < 2^32) by (first [assumption | timeout 120 lia]); assert (B : 0 <= c1 < 2^32) by (first [assumption | timeout 120 lia]); assert (C : 0 <= c2 < 2^31) by (first [assumption | timeout 120 lia]);
+    assert (D : 0 <= a < 2^32) by (first [assumption | timeout 120 lia]);
     pose proof (sumadd32_eq c0 c1 c2 a n0 over n1 n2 H0 Ho H1 H2 A B C D) as S;
     clear A B C D H0 Ho H1 H2; split4 S
   end.
@@ -171,7 +171,7 @@ Ltac sumadd_fast32_step :=
   lazymatch goal with
   | H0 : ?n0 = u32 (?c0 + ?a), H1 : ?n1 = u32 (?c1 + u32 (b2z (?n0 <? ?a))) |- _ =>
     let A := fresh "A" in let B := fresh "B" in let D := fresh "D" in let S := fresh "S" in
-    assert (A : 0 <= c0 < 2^32) by (first [assumption | lia]); assert (B : 0 <= c1 < 2^32 - 1) by (first [assumption | lia]); assert (D : 0 <= a < 2^32) by (first [assumption | lia]);
+    assert (A : 0 <= c0 < 2^32) by (first [assumption | timeout 120 lia]); assert (B : 0 <= c1 < 2^32 - 1) by (first [assumption | timeout 120 lia]); assert (D : 0 <= a < 2^32) by (first [assumption | timeout 120 lia]);
     pose proof (sumadd_fast32_eq c0 c1 a n0 n1 H0 H1 A B D) as S;
     clear A B D H0 H1; split3 S
   end.
@@ -186,12 +186,12 @@ Proof. intros Hv ->. rewrite land_mask32 by lia. lia. Qed.
 Ltac split32_step :=
   do 2 bintro;
   lazymatch goal with Hr : ?r = u32 (Z.land ?v 4294967295), Hc : ?c = ?v / 2^32 |- _ =>
-    let V := fresh "V" in assert (V : 0 <= v) by lia;
+    let V := fresh "V" in assert (V : 0 <= v) by (timeout 300 lia);
     let S := fresh "S" in pose proof (split32_eq v r c V Hr Hc) as S; clear Hr Hc V; split3 S end.
 Ltac trunc32_step :=
   lazymatch goal with |- bind (u32 (Z.land ?v 4294967295)) _ => is_var v end; bintro;
   lazymatch goal with H : ?x = u32 (Z.land ?v 4294967295) |- _ =>
-    let V := fresh "V" in assert (V : 0 <= v) by lia;
+    let V := fresh "V" in assert (V : 0 <= v) by (timeout 300 lia);
     let cx := fresh "ctop" in let E := fresh "E" in
     let S := fresh "S" in pose proof (trunc32_eq v x V H) as S; clear H V;
     remember (v / 2^32) as cx eqn:E; clear E; split3 S end.
